@@ -10,12 +10,15 @@ import shutil
 import numpy as np
 
 from . import tlc
-from .num import as_map, cq, synth
+from .num import as_map, cq, fq, synth
 from .tlaval import parse_behaviour_file
 
-OWNER = {"derive": "C05", "filter": "C04", "apply": "C03", "rk": "C02", "resample": "C15", "leray": "C10", "incomp": "C10", "poisson": "C05", "oddball": "C04", "addmode": None}
-INVS = ["RealOK", "BandOK", "FilterOK", "ProjectOK", "DeriveOK", "OddballOK"]
-PROPS = ["PoissonOK"]
+OWNER = {"derive": "C05", "filter": "C04", "apply": "C03", "rk": "C02", "resample": "C15", "leray": "C10", "incomp": "C10", "poisson": "C05", "oddball": "C04", "addmode": None,
+         "advect": "C01", "advectn": "C14", "interp": "C15", "spectrum": "C17", "metric": "C16", "coefs": "C04"}
+OBSERVATIONS = {"interp", "spectrum", "metric", "coefs"}
+INVS = ["RealOK", "BandOK", "FilterOK", "ProjectOK", "DeriveOK", "OddballOK", "InterpOK", "SpectrumOK", "MetricOK"]
+PROPS = ["PoissonOK", "AdvectOK", "EquivOK"]
+DT_ADV = 0.5
 L = 2 * np.pi
 DT = 0.25
 
@@ -36,7 +39,7 @@ def simulate(run, tier, seed, label, num=None):
         # exact rationals grow along a session and TLC stops at a 32-bit overflow instead of wrapping: such a stop only ends that
         # simulation run (the behaviours written before it are complete); further runs with other seeds fill up the sample
         res = tlc.run_tlc("Session", cfg, workers=workers, simulate="file={dir}/tr,num=%d" % max(1, min(per, (target - len(behs) + workers - 1) // workers)),
-                          depth=7, seed=seed + 1 + 1000 * rounds, timeout=3000, tag="Session_" + label, tolerate_overflow=True)
+                          depth=2 * 6 + 1, seed=seed + 1 + 1000 * rounds, timeout=3000, tag="Session_" + label, tolerate_overflow=True)
         rounds += 1
         run.add_tlc(res, "Session/" + label)
         if getattr(res, "overflow", False):
@@ -48,8 +51,10 @@ def simulate(run, tier, seed, label, num=None):
                 b = parse_behaviour_file(f)
             except Exception:  # noqa: BLE001   a file still being written when TLC stopped
                 continue
+            b = [s for _, s in b]
+            b = [b[0]] + [s for prev, s in zip(b, b[1:]) if s["len"] != prev["len"]]     # drop the steps that only choose a family
             if len(b) >= 2:
-                behs.append([s for _, s in b])
+                behs.append(b)
         tlc.cleanup(res)
         if res.violated:
             break
@@ -108,6 +113,11 @@ def apply_action(ex, jnp, D, N, u, last):
     if op == "apply":
         f = _fun(ex, D, N, last["term"])
         return np.asarray(ex.ifft(f(ex.fft(ju)), num_spatial_dims=D, num_points=N)), N
+    if op == "rk" and last.get("via") == "stepper":
+        k = ("rkstepper", D, N, last["term"], last["p"], u.shape[0])
+        if k not in _CACHE:
+            _CACHE[k] = _stepper_with_zero_linear_part(ex, D, N, last["term"], last["p"], u.shape[0])
+        return np.asarray(_CACHE[k](ju)), N
     if op == "rk":
         f = _fun(ex, D, N, last["term"])
         cls = {1: ex.etdrk.ETDRK1, 2: ex.etdrk.ETDRK2, 3: ex.etdrk.ETDRK3, 4: ex.etdrk.ETDRK4}[last["p"]]
@@ -127,8 +137,77 @@ def apply_action(ex, jnp, D, N, u, last):
         return np.asarray(ex.spectral.make_incompressible(ju)), N
     if op == "poisson":
         return np.asarray(ex.poisson.Poisson(D, L, N, order=last["o"])(ju)), N
+    if op in ("advect", "advectn"):
+        vel = np.asarray(last["v"], dtype=float) * (np.pi / 2) / DT_ADV          # c dt w = v pi / 2 with w = 2 pi / L = 1
+        k = ("adv", D, N, tuple(last["v"]))
+        if k not in _CACHE:
+            _CACHE[k] = ex.stepper.Advection(D, L, N, DT_ADV, velocity=jnp.asarray(vel))
+        stp = _CACHE[k]
+        chans = []
+        for c in range(u.shape[0]):          # the stepper is single-channel: one call per channel
+            uc = ju[c:c + 1]
+            if op == "advect":
+                chans.append(np.asarray(stp(uc)))
+            elif last["how"] == "repeat":
+                chans.append(np.asarray(ex.repeat(stp, last["n"])(uc)))
+            elif last["how"] == "rollout":
+                trj = np.asarray(ex.rollout(stp, last["n"], include_init=True)(uc))
+                if trj.shape != (last["n"] + 1,) + tuple(uc.shape) or not np.array_equal(trj[0], np.asarray(uc)):
+                    raise AssertionError("rollout(include_init=True): wrong trajectory shape or first entry")
+                chans.append(trj[-1])
+            else:
+                chans.append(np.asarray(ex.RepeatedStepper(stp, last["n"])(uc)))
+        return np.concatenate(chans, axis=0), N
     if op == "oddball":
         return np.asarray(ex.ifft(ex.fft(ju) * ex.spectral.oddball_filter_mask(D, N), num_spatial_dims=D, num_points=N)), N
+    raise KeyError(op)
+
+
+def _stepper_with_zero_linear_part(ex, D, N, term, p, C):
+    """public stepper classes whose linear operator vanishes identically for these arguments: their ETDRK step is the rational Runge-Kutta step
+    of the machine (z -> 0 limits), now through BaseStepper's own plumbing"""
+    st = ex.stepper
+    if term.startswith("conv_"):
+        return st.Burgers(D, L, N, DT, diffusivity=0.0, convection_scale=1.0, single_channel="_sc_" in term, conservative=term.endswith("cons"), order=p)
+    if term == "gradnorm_fix":
+        return st.KuramotoSivashinsky(D, L, N, DT, gradient_norm_scale=1.0, second_order_scale=0.0, fourth_order_scale=0.0, order=p)
+    if term == "poly2":
+        return st.generic.GeneralPolynomialStepper(D, L, N, DT, linear_coefficients=(0.0,), polynomial_coefficients=(0.0, 0.5, -1.0), order=p)
+    if term == "vort2d":
+        return st.NavierStokesVorticity(D, L, N, DT, diffusivity=0.0, vorticity_convection_scale=1.0, drag=0.0, order=p)
+    raise KeyError(term)
+
+
+def observe(ex, jnp, D, N, u, last):
+    """the public call of an observation action and the machine's prediction, as comparable arrays; returns (got, want, tolerance scale)"""
+    op, obs = last["op"], last["obs"]
+    ju = jnp.asarray(u)
+    if op == "interp":
+        x = jnp.asarray(np.asarray(last["q"], dtype=float) * (L / 4))
+        got = np.asarray(ex.FourierInterpolator(ju, domain_extent=L)(x))
+        want = np.array([float(fq(c["re"])) for c in obs])
+        return got, want, 1.0 + float(np.max(np.abs(u)))
+    if op == "spectrum":
+        got = np.asarray(ex.get_spectrum(ju, power=True))
+        want = np.array([[float(fq(b)) for b in ch] for ch in obs])
+        return got, want, 1.0 + float(np.max(np.abs(want)))
+    if op == "metric":
+        m = ex.metrics
+        lo, hi = last["lo"], last["hi"]
+        mse, band, grad = float(fq(obs["mse"])), float(fq(obs["band"])), float(fq(obs["grad"]))
+        z = jnp.zeros_like(ju)
+        got = [float(m.MSE(ju)), float(m.MSE(ju, z, domain_extent=L)), float(m.fourier_MSE(ju)), float(m.RMSE(ju)),
+               float(m.fourier_MSE(ju, z, domain_extent=L, low=lo, high=hi)), float(m.H1_MSE(ju, z, domain_extent=L)),
+               float(m.fourier_MSE(ju, domain_extent=L, derivative_order=1))]
+        want = [mse, L ** D * mse, mse, sum(np.sqrt(float(fq(c))) for c in obs["chan"]), L ** D * band, L ** D * (mse + grad), L ** D * grad]
+        return np.array(got), np.array(want), 1.0 + L ** D * (mse + grad)
+    if op == "coefs":
+        got = np.asarray(ex.spectral.get_fourier_coefficients(ju, round=None))
+        want = np.zeros(got.shape, dtype=complex)
+        for c, ch in enumerate(obs):
+            for s_, v in as_map(ch).items():
+                want[(c,) + tuple(s_)] = cq(v)
+        return got, want, 1.0 + float(np.max(np.abs(want)))
     raise KeyError(op)
 
 
@@ -144,7 +223,22 @@ def replay(run, behs, ex, jnp, owned, pid):
         for st in states[1:]:
             last = st["last"]
             op = last["op"]
-            trail.append({k: (list(v) if isinstance(v, tuple) else v) for k, v in last.items()})
+            trail.append({k: (list(v) if isinstance(v, tuple) else v) for k, v in last.items() if k != "obs"})
+            if op in OBSERVATIONS:
+                try:
+                    got, want, scale = observe(ex, jnp, D, N, u, last)
+                    bad = got.shape != want.shape or not float(np.max(np.abs(got - want))) <= 1e-9 * scale
+                    detail = {"max_abs_diff": float(np.max(np.abs(got - want))) if got.shape == want.shape else None, "shape": list(got.shape)}
+                except Exception as e:  # noqa: BLE001
+                    bad, detail = True, {"exception": repr(e)[:300]}
+                nact += 1
+                ops_seen[op] = ops_seen.get(op, 0) + 1
+                if bad:
+                    if op in owned:
+                        trail[-1].pop("obs", None)
+                        run.violation({"kind": "session", "what": op, "D": D, "mode": "observation"}, dict(detail, actions=[{k: v for k, v in t.items() if k != "obs"} for t in trail], N=N))
+                    break
+                continue
             try:
                 u, N = apply_action(ex, jnp, D, N, u, last)
             except Exception as e:  # noqa: BLE001
@@ -166,7 +260,7 @@ def replay(run, behs, ex, jnp, owned, pid):
     run.extra["session"] = {"behaviours": nbeh, "actions_replayed": nact, "by_operation": ops_seen, "owned_operations": sorted(owned)}
     if behs:
         b = behs[min(3, len(behs) - 1)]
-        run.sample({"session_behaviour": [{k: (list(v) if isinstance(v, tuple) else v) for k, v in s["last"].items()} for s in b]})
+        run.sample({"session_behaviour": [{k: (list(v) if isinstance(v, tuple) else v) for k, v in s["last"].items() if k != "obs"} for s in b]})
 
 
 def run_for(run, tier, seed, ex, jnp, owned, pid):
